@@ -88,9 +88,15 @@ class PoolGen:
             r2 = r.random()
             if r2 < 0.7:
                 self.ops.append("commitlast all")
-            elif r2 < 0.85:
+            elif r2 < 0.8:
                 self.ops.append(f"commitlast first:{r.choice([1, 1, 2])}")
                 self.tags.add("commit:partial")
+            elif r2 < 0.88:
+                self.ops.append(f"commitlast last:{r.choice([1, 1, 2])}")
+                self.tags.add("commit:partial-skipping-lower-nonces")
+            elif r2 < 0.94:
+                self.ops.append("commitlast second")
+                self.tags.add("commit:batches-out-of-order")
             else:
                 self.ops.append("commitlast rev")
                 self.tags.add("commit:out-of-order")
